@@ -67,10 +67,12 @@ def c01(tier):
              + mk("bus", 50 if q else 2000, s + 6, "default", n_ops=70, opts=dict(weights=w), local_only=True)
              # subscribers that read slowly (within the write buffer) and catch up: nothing may be lost on the way
              + mk("slowsub", 120 if q else 4000, s + 7, "default") + mk("slowsub", 60 if q else 2000, s + 8, "smallbuf"))
-    res = run_cases(cases)
+    # "nothing is delivered for a fetch that was refused / unfetched" also when the refusal is a failed allocation
+    fres, fcases = fetch_allocfail_cases(tier, s)
+    res = fres + run_cases(cases + fcases)
     return report("C01", "exploration", res,
                   "random histories of add/remove/change/fetch/unfetch/get/connect/disconnect by 2-7 peers over raw, unix and WebSocket transports, random "
-                  "segmentation and epoll batching, plus subscribers whose socket takes the daemon's output slowly (short writes, would-block, refills) without ever overflowing the write buffer; every active fetch's replica (replayed add/change/remove stream) is compared with the reference model at "
+                  "segmentation and epoll batching, plus subscribers whose socket takes the daemon's output slowly (short writes, would-block, refills) without ever overflowing the write buffer, plus one fetch / unfetch with allocation number n failing, for every n (the subscription must exist completely or not at all, as answered); every active fetch's replica (replayed add/change/remove stream) is compared with the reference model at "
                   "every quiescent point and at the fetch response; distinct = (monitor, when, size class, rule kind, transport / response class) signatures observed",
                   t0, tier, SIM_ASSUME, min_events={"replica_checks_nonempty": 1000, "note_remove": 50, "note_change": 50, "resource_refusals": 1})
 
@@ -321,6 +323,20 @@ def ns_allocfail_cases(tier, s):
     return cres, cases
 
 
+def fetch_allocfail_cases(tier, s):
+    """one fetch / unfetch with allocation number n failing, for every n: the subscription exists completely or not at all, as answered"""
+    q = tier == "quick"
+    variants = [(op, t) for op in ("fetch", "unfetch") for t in (("raw",) if q else ("raw", "ws"))]
+    counting = [dict(kind="allocfail-fetch", seed=s * 23 + i, config="default", params=dict(op=op, transport=t)) for i, (op, t) in enumerate(variants)]
+    cres = run_cases(counting)
+    cases = []
+    for r in cres:
+        for i in range(r.alloc_count or 0):
+            for cnt in ((1,) if q else (1, 2, 4)):
+                cases.append(dict(kind="allocfail-fetch", seed=r.case["seed"], config="default", params=dict(r.case["params"], nth=i, count=cnt)))
+    return cres, cases
+
+
 def passwd_allocfail_cases(tier, s):
     """one authorised password change (own account / by an admin, raw / WebSocket) with allocation number n failing, for every n"""
     q = tier == "quick"
@@ -363,12 +379,13 @@ def c15(tier):
     cases += mk("reclaim", 60 if q else 2000, s + 30, "lowheap", mode="lowheap", n_ops=120)
     pres, pcases = passwd_allocfail_cases(tier, s)
     nres, ncases = ns_allocfail_cases(tier, s)
-    res = cres + pres + nres + run_cases(cases + pcases + ncases)
+    fres, fcases = fetch_allocfail_cases(tier, s)
+    res = cres + pres + nres + fres + run_cases(cases + pcases + ncases + fcases)
     return report("C15", "fault_enumeration", res,
                   "corpus of 8 scripted sessions (every request type, raw/unix/WebSocket handshakes, routed requests answered / timed out / orphaned by caller and "
                   "owner disconnects, fetch table growth, failed HTTP upgrades, fragmented and close frames); a clean run counts the N allocations of the script "
                   "(cjet_malloc/cjet_calloc incl. cJSON), then allocation number n fails for every n in 0..N-1 (thorough; every 2nd, offset by the seed, in quick) "
-                  "plus random 2-5 consecutive failures, plus an authorised password change (credential file in place) with every allocation failing once: answer, accepted credentials and file must agree (old XOR new), an add / change / remove with every allocation failing once: a fresh connection must read back what the answer said (refused = exactly as before), plus bus histories under a 256 KiB heap cap that ordinary adds reach; oracle: sanitizers, at most one response per request, only the connection whose processing hit the "
+                  "plus random 2-5 consecutive failures, plus an authorised password change (credential file in place) with every allocation failing once: answer, accepted credentials and file must agree (old XOR new), an add / change / remove with every allocation failing once: a fresh connection must read back what the answer said (refused = exactly as before), a fetch / unfetch with every allocation failing once: the subscription exists completely or not at all, as answered, plus bus histories under a 256 KiB heap cap that ordinary adds reach; oracle: sanitizers, at most one response per request, only the connection whose processing hit the "
                   "failure may be dropped, a fresh connection is served normally afterwards, idle baseline after closing, clean SIGTERM exit with LeakSanitizer; "
                   "distinct = (script, transport of the victim) signatures; allocations counted: %d" % total,
                   t0, tier, SIM_ASSUME + ["only allocations through cjet_malloc/cjet_calloc (incl. cJSON hooks) are failed; zlib/websocket plain malloc is not used by the daemon's enabled features"],
